@@ -407,6 +407,158 @@ def r09_4(ctx):
     ctx.ob("conversion-rewinds", via_guard, site(b), "conversion obtains the reader through the rewinding accessor")
 
 
+_VIEW_CALLS = ("into_inner", "get_ref", "get_mut", "as_slice", "as_ref", "deref", "borrow", "into", "from", "to_vec", "clone", "into_owned", "as_mut")
+
+
+def _from_capture(lib, cap, b, op, depth=0, seen=None):
+    """The operand's value is (a view / a conversion of) what the capture reader holds: walking back through
+    copies, references, aggregates and accessor calls reaches a call of a method of the capture reader."""
+    seen = seen if seen is not None else set()
+    if depth > 12 or not is_place(op):
+        return False
+    l = op["p"]["l"]
+    if l in seen:
+        return False
+    seen.add(l)
+    for dbb, idx, kind, payload in b.whole_defs(l):
+        if kind == "call":
+            f = fn_of(payload) or {}
+            if f.get("impl_self_adt") == cap or (f.get("resolved_impl_self_ty") or "").startswith(cap + "<"):
+                return True
+            if f.get("name") in _VIEW_CALLS and payload["args"] and _from_capture(lib, cap, b, payload["args"][0], depth + 1, seen):
+                return True
+        elif kind == "assign":
+            rv = payload["rv"]
+            ops = []
+            if rv["k"] in ("use", "cast"):
+                ops = [rv["op"]]
+            elif rv["k"] in ("ref", "rawptr", "copyforderef"):
+                ops = [{"k": "copy", "p": {"l": rv["p"]["l"], "pr": []}}]
+            elif rv["k"] == "aggregate":
+                ops = list(rv["ops"])
+            for o in ops:
+                if _from_capture(lib, cap, b, o, depth + 1, seen):
+                    return True
+    return False
+
+
+@rule("R09.10", 2, "what a reader has produced so far is presented as the complete in-memory input only on evidence that the source is exhausted (the EOF flag, or a drain to the end that succeeded)", ["C09", "C02", "C03"])
+def r09_10(ctx):
+    lib = ctx.lib
+    cap, guard = _capture_adts(lib)
+    voc = vocab.lib_vocab(ctx.facts)
+    adt = lib.adts[cap]
+    flags = [f["name"] for f in adt["variants"][0]["fields"] if f["ty"] == "bool"]
+    ctx.need(len(flags) == 1, f"expected one bool field (the EOF flag) in {cap}, found {flags}")
+    flag = flags[0]
+    # the EOF test: a bool method of the capture reader returning the flag; the drain: a method of the capture
+    # reader that runs an unbounded read_to_end on the source
+    eof_tests, drains = set(), set()
+    for b in lib.bodies:
+        if b.raw.get("impl_self_adt") != cap:
+            continue
+        if b.raw.get("ret_ty") == "bool":
+            tr = trace(b, {"k": "copy", "p": {"l": 0, "pr": []}})
+            if any(st[0] == "field" and st[1] == flag for st in tr.steps):
+                eof_tests.add(b.id)
+        for _, t in b.calls():
+            f = fn_of(t) or {}
+            if f.get("trait") == "std::io::Read" and f.get("name") == "read_to_end" and "Take<" not in (f.get("self_ty") or ""):
+                drains.add(b.id)
+    ctx.need(eof_tests, "no method of the capture reader returns its EOF flag")
+    n = 0
+    for b in lib.bodies:
+        if b.raw.get("impl_self_adt") == cap:
+            continue
+        for bi in sorted(b.reach()):
+            for s_ in b.blocks[bi]["stmts"]:
+                if not (s_["k"] == "assign" and s_["rv"]["k"] == "aggregate" and s_["rv"].get("agg") == "adt" and s_["rv"]["ops"]):
+                    continue
+                rv = s_["rv"]
+                whole = (rv["adt"] == voc["ref"]["path"] and rv.get("variant") == voc["ref"]["mem"]) or (rv["adt"] == voc["input"]["path"] and rv.get("variant") == voc["input"]["mem"]) or (rv["adt"] == "std::borrow::Cow" and "[u8]" in s_["p"].get("ty", ""))
+                if not whole or not _from_capture(lib, cap, b, rv["ops"][0]):
+                    continue
+                n += 1
+                ok = False
+                why = "not guarded by the capture reader's EOF flag"
+                for sb in sorted(b.reach()):
+                    sw = b.blocks[sb]["term"]
+                    if sw["k"] != "switch" or sw.get("discr_ty") != "bool":
+                        continue
+                    tr = trace(b, sw["discr"])
+                    if tr.origin and tr.origin[0] == "call" and ((fn_of(tr.origin[2]) or {}).get("resolved") or (fn_of(tr.origin[2]) or {}).get("def")) in eof_tests and all(st[0] in ("use", "field", "agg_field") for st in tr.steps):
+                        if b.edge_dominates(sb, "otherwise", sw["otherwise"], bi):
+                            ok = True
+                            why = "built only on the true edge of the capture reader's EOF flag"
+                if not ok:
+                    import r_bin
+
+                    for cb_, ct in b.calls():
+                        f = fn_of(ct) or {}
+                        if (f.get("resolved") or f.get("def")) in drains:
+                            sws = r_bin.result_switches(b, ct["dest"]["l"])
+                            if any(oks and b.dominates(oks[0], bi) for _, _, oks in sws):
+                                ok = True
+                                why = f"built only after `{f.get('name')}` (unbounded read_to_end of the source) succeeded"
+                ctx.ob(f"whole-only-at-eof:{b.name}:{rv.get('variant')}", ok, site(b, bi), why if ok else f"captured bytes are handed out as the complete input ({rv['adt'].rsplit('::', 1)[-1]}::{rv.get('variant')}) {why}: a detector or parser would see a truncated stream as the whole input")
+    ctx.ob("whole-input-sites", n >= 2, "lib", f"{n} site(s) present captured reader bytes as complete input")
+
+
+@rule("R09.11", 2, "the fused prefix reader is a pure pass-through: bytes reach the caller's buffer only through the inner reader's own read on that buffer, and the count returned is that call's (or 0 once the inner reader is gone)", ["C09", "C02"])
+def r09_11(ctx):
+    lib = ctx.lib
+    fused = [p_ for p_, a in lib.adts.items() if a["crate"] == "xt" and a["kind"] == "struct" and len(a["variants"][0]["fields"]) == 1 and re.match(r"^std::option::Option<[A-Z]\w*>$", a["variants"][0]["fields"][0]["ty"])
+             and any(i.get("trait") == "std::io::Read" and i.get("self_adt") == p_ for i in lib.impls)]
+    ctx.need(len(fused) == 1, f"fused reader (local io::Read newtype around Option<R>) not found ({fused})")
+    reads = [b for b in lib.bodies if b.raw.get("impl_trait") == "std::io::Read" and b.raw.get("impl_self_adt") == fused[0] and b.name == "read"]
+    ctx.need(len(reads) == 1, "read method of the fused reader not found")
+    b = reads[0]
+    inner = []
+    others = []
+    for bb, t in b.calls():
+        f = fn_of(t) or {}
+        touches_buf = False
+        for i, a in enumerate(t["args"]):
+            tr = trace(b, a)
+            if tr.origin == ("arg", 2):
+                touches_buf = True
+        if not touches_buf:
+            continue
+        if f.get("trait") == "std::io::Read" and f.get("name") == "read" and len(t["args"]) == 2:
+            recv = trace(b, t["args"][0])
+            buf = trace(b, t["args"][1])
+            through_self = recv.origin == ("arg", 1) and any(st[0] == "downcast" and st[1] == "Some" for st in recv.steps)
+            whole_buf = buf.origin == ("arg", 2) and all(st[0] in ("use", "ref", "deref") for st in buf.steps)
+            inner.append((bb, t, through_self and whole_buf))
+        elif f.get("name") in ("is_empty", "len") and f.get("def", "").startswith("core::slice"):
+            continue
+        else:
+            others.append((bb, f.get("def")))
+    ok1 = len(inner) == 1 and inner[0][2]
+    ctx.ob("inner-read-on-callers-buffer", ok1, site(b, inner[0][0]) if inner else site(b), "one read of the inner reader, on the caller's whole buffer" if ok1 else f"{len(inner)} inner read(s) / not on the caller's whole buffer")
+    ctx.ob("no-other-writer-to-buffer", not others, site(b, others[0][0]) if others else site(b), "nothing else touches the caller's buffer" if not others else f"the caller's buffer is also handed to {[d_ for _, d_ in others]}: bytes can be delivered that the inner reader's position does not account for (replayed or skipped input)")
+    # every Ok(n) returned: n is the inner read's count or the constant 0
+    ok3 = bool(inner)
+    det = "every returned count is the inner read's own (or 0 without an inner reader)"
+    for dbb, idx, kind, payload in b.whole_defs(0):
+        if kind == "assign" and payload["rv"]["k"] == "aggregate" and payload["rv"].get("variant") == "Ok":
+            o = payload["rv"]["ops"][0]
+            if o.get("k") == "const":
+                if o.get("v") != 0:
+                    ok3, det = False, f"returns the constant {o.get('v')}"
+                continue
+            tr = trace(b, o)
+            if not (inner and tr.origin and tr.origin[0] == "call" and (tr.origin[2] is inner[0][1] or ((fn_of(tr.origin[2]) or {}).get("def") == "std::ops::Try::branch" and trace(b, tr.origin[2]["args"][0]).origin and trace(b, tr.origin[2]["args"][0]).origin[0] == "call" and trace(b, tr.origin[2]["args"][0]).origin[2] is inner[0][1]))):
+                ok3, det = False, "a returned count does not come from the inner read"
+        elif kind == "call" and (fn_of(payload) or {}).get("def") == "std::ops::FromResidual::from_residual":
+            continue
+        elif kind == "call" and inner and payload is inner[0][1]:
+            continue
+        else:
+            ok3, det = False, "return value of unrecognised origin"
+    ctx.ob("count-is-inner-count", ok3, site(b), det)
+
+
 @rule("R09.5", 2, "undetected input yields exactly the documented error, and only on the None arm of detection", ["C09"])
 def r09_5(ctx):
     lib = ctx.lib
